@@ -120,6 +120,7 @@ def run_callback(params, frames, validator=_valid_tuple, hand=None):
         out.append((d, s, e))
         if hand is not None:
             hand.append((s, e, src.i, src.nones))
+        return len(out)  # a callback's return value (here a truthy count) means nothing to the tokenizer
 
     ret = tok.tokenize(src, callback=cb)
     return out, ret
@@ -137,7 +138,7 @@ def pcm_frames(flags):
 def judge(oracle, params, n, bits, memo, variant=0):
     """Run one (tuple, stream) case under one oracle.  Returns (complaint|None,
     nontrivial: bool, tokens [(s,e)])."""
-    mn, mx, ms, im, is_, mode = params
+    mn, mx, ms, im, is_, mode = [int(x) for x in params]  # the oracles work on plain ints whatever type was passed in
     frames = frames_of(n, bits)
     flags = flags_of(n, bits)
     try:
@@ -273,6 +274,7 @@ def work_enum(task):
            "states": 0, "transitions": 0, "samples": []}
     viol = []
     nviol = 0
+    held = None  # tokens delivered by an earlier run (another tokenizer object), re-checked later
     for params in tuples:
         memo = {} if oracle == "C08" else None
         states = set()
@@ -282,6 +284,20 @@ def work_enum(task):
         for n in range(L + 1):
             for bits in range(1 << n):
                 idx += 1
+                if oracle == "C01" and idx % 5 == 0:
+                    # tokens a consumer still holds must not change when other tokenizers run afterwards
+                    if held is not None:
+                        hmsg = tm.check_c01(held[0], held[1])
+                        if hmsg and len(viol) < 40:
+                            nviol += 1
+                            viol.append(("held tokens tuple=%s stream=%s" % (",".join(map(str, held[2])), held[3]),
+                                         "tokens delivered earlier were altered by later runs of other tokenizers: " + hmsg,
+                                         {"kind": "tok", "oracle": "C01", "params": list(held[2]), "stream": held[3]}))
+                    fr_ = frames_of(n, bits)
+                    try:
+                        held = (fr_, [(d, s_, e_) for d, s_, e_, _, _ in run_generator(params, fr_)[0]], params, stream_str(n, bits))
+                    except Exception:
+                        held = None
                 variant = 0
                 if oracle == "C01":
                     variant = (idx % 7)  # 0: tuple frames only, 1: +string, 2: +PCM, 3..6: +falsy / zero-length frames
@@ -472,6 +488,19 @@ def work_long(task):
     global _FR
     if len(_FR) < n + 1:
         _FR = [((i, False), (i, True)) for i in range(n + 1)]
+    try:
+        import numpy as np
+    except ImportError:
+        np = None
+    tuples = list(tuples)
+    if np is not None:
+        # the same tuples given as fixed-width numpy integers (positions on long streams exceed their range)
+        extra = []
+        for t in tuples[:: max(1, len(tuples) // 6)]:
+            for ty in (np.int8, np.uint8, np.int16):
+                if max(t[:3]) <= np.iinfo(ty).max and min(t[:3]) >= np.iinfo(ty).min:
+                    extra.append(tuple(ty(x) for x in t[:5]) + (t[5],))
+        tuples += extra
     for params in tuples:
         for fl in streams:
             nn = len(fl)
